@@ -632,7 +632,7 @@ func (fsys *BackupFS) Lchown(name string, uid, gid int) (err error) {
 		return err
 	}
 
-	return fsys.base.Lchown(name, uid, gid)
+	return fsys.base.Lchown(resolvedName, uid, gid)
 }
 
 // Rollback tries to rollback the backup back to the
